@@ -184,7 +184,8 @@ def spend_cases(ctx, rnd, quick):
     reps = 2 if quick else 12
     for kind in S.KINDS:
         for rep in range(reps):
-            s = S.build(rnd, kind, {"n_in": 1} if rep == 0 else None)
+            # rep 0: the only input; rep 1: among other inputs of which one carries a witness (a legacy input in a segwit transaction)
+            s = S.build(rnd, kind, {"n_in": 1} if rep == 0 else ({"n_in": 3, "other_witness": True} if rep == 1 and not kind.startswith("p2tr") else None))
             fl = R.STD
             nops = 30
             for cmds in command_sets(rnd, nops, quick)[: (3 if quick else 8)]:
